@@ -1255,21 +1255,22 @@ func genConfigs(r *core.Run) ([]genCfg, error) {
 	if pick <= 0 {
 		pick = 1
 	}
-	mk := func(shapes string, pick int) genCfg {
+	if !strings.Contains(tmpl, "Half = 0") {
+		return nil, fmt.Errorf("unexpected shape of LinkGen.quick.cfg")
+	}
+	mk := func(shapes string, pick, half int) genCfg {
 		t := strings.Replace(tmpl, "Shapes <- ShapesQuick", "Shapes <- "+shapes, 1)
 		t = strings.Replace(t, "Pick = 1", fmt.Sprintf("Pick = %d", pick), 1)
-		return genCfg{"LinkGen." + shapes + ".cfg", t}
+		t = strings.Replace(t, "Half = 0", fmt.Sprintf("Half = %d", half), 1)
+		return genCfg{fmt.Sprintf("LinkGen.%s.%d.cfg", shapes, half), t}
 	}
 	if !r.Thorough() {
-		return []genCfg{mk("ShapesQuickA", pick), mk("ShapesQuickB", pick)}, nil
+		return []genCfg{mk("ShapesQuickA", pick, 1), mk("ShapesQuickA", pick, 2), mk("ShapesQuickB", pick, 0)}, nil
 	}
-	var out []genCfg
-	for _, s := range []string{"S33", "S34", "S24", "S32", "S23", "S22", "S31", "S21"} {
-		p := 0
-		if s == "S34" {
-			p = pick
-		}
-		out = append(out, mk(s, p))
+	// the big shapes first, each spread over two runs
+	out := []genCfg{mk("S33", 0, 1), mk("S33", 0, 2), mk("S34", pick, 1), mk("S34", pick, 2)}
+	for _, s := range []string{"S24", "S32", "S23", "S22", "S31", "S21"} {
+		out = append(out, mk(s, 0, 0))
 	}
 	return out, nil
 }
